@@ -21,9 +21,39 @@ class PathInfo:
     end: Optional[Node] = None
 
 
+def _assigned_names(fn: ast.AST) -> set:
+    out = set()
+    for n in ast.walk(fn):
+        if isinstance(n, ast.Name) and isinstance(n.ctx, ast.Store):
+            out.add(n.id)
+        elif isinstance(n, ast.arg):
+            pass
+    return out
+
+
+def _contradictory(pi: "PathInfo", assigned: set) -> bool:
+    """Same pure test (names/attribute chains/constants only, nothing re-assigned) taken both ways."""
+    seen: Dict[str, bool] = {}
+    for test, truth in pi.atoms:
+        pure = all(isinstance(x, (ast.Name, ast.Attribute, ast.Constant, ast.Compare, ast.cmpop, ast.expr_context, ast.List, ast.Tuple)) for x in ast.walk(test))
+        if not pure:
+            continue
+        names = {x.id for x in ast.walk(test) if isinstance(x, ast.Name)}
+        if names & assigned:
+            continue
+        if any(isinstance(x, ast.Attribute) for x in ast.walk(test)):
+            continue  # attributes may change through calls in between
+        key = ast.unparse(test)
+        if key in seen and seen[key] != truth:
+            return True
+        seen[key] = truth
+    return False
+
+
 def function_paths(cfg: CFG, include_raise: bool = True, limit: int = 5000) -> List[PathInfo]:
     dsts = [cfg.exit] + ([cfg.raise_exit] if include_raise else [])
     out: List[PathInfo] = []
+    assigned = _assigned_names(cfg.fn)
     for path in cfg.paths(cfg.entry, dsts, limit=limit):
         pi = PathInfo(nodes=path)
         for node, lab in path:
@@ -46,6 +76,8 @@ def function_paths(cfg: CFG, include_raise: bool = True, limit: int = 5000) -> L
         pi.end = path[-1][0]
         if pi.end is cfg.raise_exit:
             pi.raises = True
+        if _contradictory(pi, assigned):
+            continue  # infeasible: the same unmodified local tested both ways
         out.append(pi)
     return out
 
